@@ -61,7 +61,8 @@ type Scenario struct {
 	Phases  [][]int `json:"phases"` // threads released so far, per phase
 	Slow    uint64  `json:"slow"`   // != 0: receivers dawdle (seeded) before each receive
 	Explore bool    `json:"explore"`
-	Stale   bool    `json:"stale,omitempty"` // stale-view family: WithOnly, then Unsub/UnsubAll on the parent, then a publish through the view
+	Stale   bool    `json:"stale,omitempty"`   // stale-view family: WithOnly, then Unsub/UnsubAll on the parent, then a publish through the view
+	NoModel bool    `json:"nomodel,omitempty"` // large scenario: Go oracles only, not emitted to the Coq model
 	Desc    string  `json:"desc"`
 }
 
@@ -221,7 +222,8 @@ var parked = map[string]bool{
 // chans.SendTimeout.
 func quiescent(buf []byte) (quiet bool, others, blocked int) {
 	n := runtime.Stack(buf, true)
-	quiet = true
+	quiet = n < len(buf) // a truncated dump hides goroutines: not quiescent
+
 	for i, g := range bytes.Split(buf[:n], []byte("\n\n")) {
 		if i == 0 || len(g) == 0 {
 			continue // the caller
@@ -681,8 +683,122 @@ func buildView(n, j int, mid string, i, b int, vw string, vslice bool) Scenario 
 	return sc
 }
 
+// buildLarge: many subscribers, long slices, big buffers, Sub/Unsub cycles in the setup so that the
+// subscription slice grows, shrinks and reuses its backing array; Sync/Wait publishes with eager
+// receivers (or receivers released after the publish when the buffers hold everything), so the
+// outcome is deterministic; then Unsub of the first / a middle / the last subscription, a second
+// publish, optionally a publish through a WithOnly view on another position.
+// threads: 0 setup, 1 publisher, 2 view, 3 Unsub, 4 second publish, 5 final UnsubAll, 6.. receivers
+func buildLarge(r *core.Rand, n, e, b int, w string, withView, delayed bool, pos int) Scenario {
+	sc := Scenario{CbSet: true}
+	var setup []Op
+	var live []int
+	next := 0
+	sub := func() {
+		setup = append(setup, Op{Op: "subbuf", Size: b})
+		live = append(live, next)
+		next++
+	}
+	unsubAt := func(i int) {
+		setup = append(setup, Op{Op: "unsub", Sub: live[i]})
+		live = append(append([]int{}, live[:i]...), live[i+1:]...)
+	}
+	for i := 0; i < n; i++ {
+		sub()
+	}
+	for cyc := r.Intn(4); cyc > 0; cyc-- {
+		k := 1 + r.Intn(n/2+1)
+		for j := 0; j < k && len(live) > 0; j++ {
+			switch r.Intn(4) {
+			case 0:
+				unsubAt(0)
+			case 1:
+				unsubAt(len(live) - 1)
+			case 2:
+				unsubAt(len(live) / 2)
+			default:
+				unsubAt(r.Intn(len(live)))
+			}
+		}
+		for j := r.Intn(k + 2); j > 0; j-- {
+			sub()
+		}
+	}
+	for len(live) < n {
+		sub()
+	}
+	evs := make([]int, e)
+	for i := range evs {
+		evs[i] = 1000 + i
+	}
+	pick := func(p int) int { // 0 first, 1 middle, 2 last
+		switch p % 3 {
+		case 0:
+			return live[0]
+		case 1:
+			return live[len(live)/2]
+		}
+		return live[len(live)-1]
+	}
+	var view []Op
+	if withView && len(live) >= 3 {
+		view = []Op{{Op: "withonly", Sub: pick(pos + 1)}, {Op: "pub1", W: "Sync", Obj: 1, Evs: []int{61}}}
+	}
+	sc.Progs = [][]Op{setup, {{Op: "pubs", W: w, Evs: evs}}, view, {{Op: "unsub", Sub: pick(pos)}},
+		{{Op: "pub1", W: "Sync", Evs: []int{77}}}, {{Op: "unsuball"}}}
+	var rs []int
+	for k := 0; k < next; k++ {
+		sc.Progs = append(sc.Progs, []Op{{Op: "range", Sub: k}})
+		rs = append(rs, 6+k)
+	}
+	var rel []int
+	phase := func(ts ...int) {
+		rel = append(rel, ts...)
+		sc.Phases = append(sc.Phases, append([]int{}, rel...))
+	}
+	phase(0)
+	if !delayed {
+		phase(rs...)
+	}
+	phase(1)
+	if delayed {
+		phase(rs...)
+	}
+	phase(2)
+	phase(3)
+	phase(4)
+	phase(5)
+	sc.NoModel = len(live)*e > 100 || next > 12
+	sc.Desc = fmt.Sprintf("large: %d subscribers live (%d channels, %d setup calls), buffer %d, PubSlice%s of %d events, delayed=%v, view=%v, Unsub position %d", len(live), next, len(setup), b, w, e, delayed, withView, pos%3)
+	return sc
+}
+
 func run(c *core.Ctx) {
 	var scs []Scenario
+	// large scenarios (every run): mostly checked by the Go oracles only, the small ones also by the model
+	{
+		r := core.NewRand(c.Seed*7919 + 13)
+		bufs := []int{0, 1, 2, 15, 16, 17, 33, 64, 65, 129, 130}
+		add := func(n, e int) {
+			w := "Sync"
+			if n*e <= 2500 && r.Bool() {
+				w = "Wait"
+			}
+			b := bufs[r.Intn(len(bufs))]
+			delayed := b >= e+2 && r.Bool()
+			scs = append(scs, buildLarge(r, n, e, b, w, r.Intn(3) == 0, delayed, r.Intn(3)))
+		}
+		for _, n := range []int{5, 8, 9, 16, 17, 33, 65} {
+			for _, e := range []int{2, 3, 15, 16, 17, 31, 32, 33, 63, 64, 65, 127, 128, 129, 130} {
+				add(n, e)
+			}
+		}
+		for _, n := range []int{2, 3, 4, 5, 8, 9} {
+			for _, e := range []int{2, 3, 4, 7} {
+				add(n, e)
+			}
+		}
+	}
 	// WithOnly views next to changes of the parent's or the view's subscription list (every run)
 	for n := 2; n <= 4; n++ {
 		for j := 0; j < n; j++ {
@@ -1311,6 +1427,10 @@ func zop(op Op) string {
 }
 
 func emit(c *core.Ctx, sc Scenario, o Outcome, panicked bool) {
+	if sc.NoModel {
+		c.Count("oracle_only_large")
+		return
+	}
 	last := o.Snaps[len(o.Snaps)-1]
 	progs := make([]string, len(sc.Progs))
 	for t, p := range sc.Progs {
